@@ -51,6 +51,21 @@ def confirm(sid):
 def detect(sid, props, tier='quick'):
     out = os.path.join(SEED, sid, '_out')
     patch = os.path.join(out, 'patch.diff')
+    if os.environ.get('SEED_USE_WORKTREE'):
+        # run the checks against the scratch worktree (change applied there), leaving /repo alone
+        wt = os.path.join(SEED, sid)
+        sh('git checkout -- . && git apply %s' % patch, cwd=wt)
+        res = {}
+        for p in props:
+            t0 = time.time()
+            rc, o = sh('VERIF_REPO=%s python3 run/vp.py check %s --tier %s' % (wt, p, tier), cwd=VERIF, timeout=7200)
+            vio = [l for l in o.splitlines() if l.startswith('VIOLATION')]
+            failed = [l.strip() for l in o.splitlines() if 'failed obligation' in l]
+            und = [l.strip() for l in o.splitlines() if l.startswith('UNDECIDED')]
+            res[p] = {'exit': rc, 'violations': vio[:10], 'failed_obligations': failed[:10], 'undecided': und[:5], 'wall_s': round(time.time() - t0), 'against': 'scratch worktree'}
+            print(sid, p, 'exit', rc, len(vio), 'violation lines;', (failed[0][:300] if failed else ''), (und[0][:200] if und else ''))
+        json.dump(res, open(os.path.join(out, 'detect_%s.json' % tier), 'w'), indent=1)
+        return res
     rc, o = sh('git -C /repo status --porcelain --untracked-files=no')
     if o.strip():
         print('refusing: /repo has uncommitted changes')
